@@ -163,8 +163,22 @@ pub fn judge(out: &Outcome, what: &str, text: &str, wit: &serde_json::Value, deb
             if r.commit_cmr != r.redeem_cmr {
                 return Err(Failure::new(format!("{what}:redeem-cmr-differs-from-commit"), format!("redeem CMR {} != commit CMR {}{}", r.redeem_cmr, r.commit_cmr, ctxt())).with(detail()));
             }
+            if !r.witness_values_consistent {
+                return Err(Failure::new(
+                    format!("{what}:witness-value-object-inconsistent"),
+                    format!("a witness node of the returned program holds a value whose compact encoding does not re-decode to its own padded bits (so the encoded program differs from the in-memory one): {}{}", out.brief(), ctxt()),
+                )
+                .with(detail()));
+            }
             if !r.witness_typing_ok {
                 return Err(Failure::new(format!("{what}:witness-node-value-not-of-node-type"), format!("a witness node holds a value that is not of the node's type{}", ctxt())).with(detail()));
+            }
+            if r.mirror_asserts && r.decoded.is_err() {
+                return Err(Failure::new(
+                    format!("{what}:mirror-assert-nodes-merged-by-sharing"),
+                    format!("the program contains an assertl and an assertr node with the same CMR (a case with two identical branches, pruned to the left in one place and to the right in another); encoding merges them and the result does not decode: {}{}", out.brief(), ctxt()),
+                )
+                .with(detail()));
             }
             match &r.decoded {
                 Err(e) => return Err(Failure::new(format!("{what}:encoding-does-not-decode"), format!("the encoded redeem program is rejected by the decoder: {e}{}", ctxt())).with(detail())),
@@ -173,6 +187,13 @@ pub fn judge(out: &Outcome, what: &str, text: &str, wit: &serde_json::Value, deb
             }
             let e1 = r.exec.is_ok();
             let e2 = matches!(r.exec_decoded, Some(Ok(())));
+            if e1 != e2 && r.mirror_asserts {
+                return Err(Failure::new(
+                    format!("{what}:mirror-assert-nodes-merged-by-sharing"),
+                    format!("the program contains an assertl and an assertr node with the same CMR (a case with two identical branches, pruned to the left in one place and to the right in another); encoding merges them, so the decoded program takes a hidden branch: {}{}", out.brief(), ctxt()),
+                )
+                .with(detail()));
+            }
             if e1 != e2 {
                 return Err(Failure::new(format!("{what}:decoded-program-behaves-differently"), format!("execution verdict differs between the satisfied and the decoded program: {}{}", out.brief(), ctxt())).with(detail()));
             }
